@@ -586,7 +586,7 @@ fn mode_regs(cfg: &Value, out: &mut NdjsonOut) {
                         let _ = nix::sys::ptrace::setregs(npid, now);
                     }
                     out.emit(&json!({"id": sc["id"], "i": i, "op": "set", "reg": reg, "value": v, "real_ok": ok,
-                        "real_err": err, "kernel_refuses": kernel_refuses, "init": init, "regs": regs_json(&now)}));
+                        "real_err": err, "kernel_refuses": kernel_refuses, "init": init, "alt": alt, "regs": regs_json(&now)}));
                 }
                 "get" => {
                     let r = catch(|| dbg.get_register_value(reg));
@@ -596,7 +596,7 @@ fn mode_regs(cfg: &Value, out: &mut NdjsonOut) {
                         Err(p) => (None, format!("panic: {p}"), Value::Null),
                     };
                     out.emit(&json!({"id": sc["id"], "i": i, "op": "get", "reg": reg, "real_ok": ok, "real_err": err,
-                        "value": val, "init": init, "regs": regs_json(&getregs())}));
+                        "value": val, "init": init, "alt": alt, "regs": regs_json(&getregs())}));
                 }
                 "resume" => {
                     let before = getregs();
